@@ -5,7 +5,7 @@ equal the original input's, in order; runs repeated under CPU contention to exer
 from vlib.common import *
 from vlib import pipeline
 
-READERS = {"jar", "apk", "xap", "vsix", "appx", "pe-dll", "pe-exe", "ps1", "ps1xml", "mof", "deb", "rpm", "dmg", "pgp-clearsign"}
+READERS = {"jar", "apk", "xap", "vsix", "appx", "pe-dll", "pe-exe", "ps1", "ps1xml", "mof", "deb", "rpm", "dmg", "pgp-clearsign", "msi", "cab"}
 
 
 def run(t):
@@ -17,7 +17,8 @@ def run(t):
     rnd = random.Random(seed())
     h = [c for c in c3 if sum(1 for r in c["rounds"] if r["outcome"] == "ok") >= 2]
     rnd.shuffle(h)
-    cases = [c for c in c1 if c["rounds"][0]["outcome"] == "ok"] + h[: (600 if t == "quick" else len(h))]
+    # (a refused input SHAPE is kept: should relic sign it after all, the payload readers must see the result)
+    cases = [c for c in c1 if c["rounds"][0]["outcome"] == "ok" or c.get("variant") == "datareserve"] + h[: (600 if t == "quick" else len(h))]
     # schedule-dependent corruption (upload goroutine vs Apply on the same file): repeat the rewrite-heavy types under contention
     own = ("refused-supported", "signed-unverifiable")
     cnt = pipeline.replay(run, vh, cases, "C03", shards=8, extra_owned=())
@@ -29,10 +30,10 @@ def run(t):
     run.cov["types_with_independent_reader"] = sorted(READERS)
     run.cov["rule"] = ("successful single signings (all types x keys x digests x modes) and re-signing histories; after each, payload items "
                        "(zip members minus signature metadata; PE headers minus checksum/certificate entry, sections, overlay; script text; "
-                       "ar members minus _gpg*; rpm lead + header + payload; dmg data + plist) must equal the original input's, in order, per an "
+                       "ar members minus _gpg*; rpm lead + header + payload; dmg data + plist; every msi stream and storage but the two signature streams, with metadata; cab folders, files and checksummed data blocks) must equal the original input's, in order, per an "
                        "independent reader, for same-path and new-path output; plus the rewrite-heavy types repeated with 16 processes "
                        "competing for CPU. non-trivial = a payload comparison was made")
-    run.assumptions += ["msi, cab, cat, manifest, mach-o, pkg payloads are covered only by relic's own verifier here (msi: see C18)",
+    run.assumptions += ["cat, manifest, mach-o, pkg payloads are covered only by relic's own verifier here",
                         "input layouts are the repository fixtures; generated layouts come with C17/C18"]
     return run.finish()
 
